@@ -808,7 +808,7 @@ open Base.Multi in
 theorem bfix_multiStruct_effect (params action : Base.KV) (old new : List Tok)
     (h : Base.fixByOwner (MOwner.name .multiStruct) params action old = some (.ok new)) :
     ∃ ty f act, dget action "type" = .ok ty ∧ msFnOf ty = .ok f ∧ dget action "action" = .ok act ∧
-      match msKind f act with
+      match msKind f act old with
       | .insert => LayoutOnly old new
       | .noop => new = old
       | .collapse => 2 ≤ old.length → (LayoutOnly old new ↔ ∀ t ∈ middle old, t.isLayout = true)
@@ -817,7 +817,7 @@ theorem bfix_multiStruct_effect (params action : Base.KV) (old new : List Tok)
   have hm := run_fixM .multiStruct params action old new (mowner_all _) h
   obtain ⟨ty, f, act, h1, h2, h3, he⟩ := fixMS_effect _ _ action old new hm
   refine ⟨ty, f, act, h1, h2, h3, ?_⟩
-  cases hk : msKind f act <;> simp only [hk] at he ⊢
+  cases hk : msKind f act old <;> simp only [hk] at he ⊢
   · exact he.1
   · intro hlen; exact collapse_layoutOnly _ old new he hlen
   · exact he
